@@ -27,7 +27,7 @@ ASSUMPTIONS = [
     "and the linear stretch against the float64 linear map at the same bound (measured <= 1 ulp)",
     "large-array cases (2**20..2**24 pixels, values correlated with the pixel index modulo 2..16) judge range / order on every pixel, quantile limits by rank, min/max limits exactly, and invariance of the limits under shuffling the pixels",
 ]
-BUDGET = {"quick": {"soft_s": 120}, "thorough": {"soft_s": 900}}
+BUDGET = {"quick": {"soft_s": 300}, "thorough": {"soft_s": 1200}}
 MIN_EVALUATIONS = {"quick": 500, "thorough": 5000}
 
 DTYPES = ["bool", "int8", "uint8", "int16", "uint16", "int32", "uint32", "int64", "uint64", "float16", "float32", "float64"]
